@@ -83,6 +83,7 @@ pub fn replay(ctx: &mut Ctx, case: &Case) -> Result<(), String> {
         ("C10", "trans") => replay_as::<c10::Trans>(ctx, case),
         ("C11", "faults") => replay_as::<c11::Faults>(ctx, case),
         ("C12", "probe") => replay_as::<c12::Probe>(ctx, case),
+        ("C12", "anywhere") => replay_as::<c12::Anywhere>(ctx, case),
         ("C13", "term") => replay_as::<c13::Term>(ctx, case),
         ("C14", "chain") => replay_as::<c14::Chain>(ctx, case),
         ("C15", "agree") => replay_as::<c15::Agree>(ctx, case),
